@@ -468,7 +468,6 @@ func rulePredSound(id string) func(*Checker) {
 	}
 }
 
-
 // feedsBoolPhi: the boolean value flows (directly or through short-circuit
 // lowering) into a phi.
 func feedsBoolPhi(v ssa.Value) bool {
